@@ -7,6 +7,8 @@ package main
 
 import (
 	"bytes"
+	"crypto/ed25519"
+	"crypto/sha256"
 	"encoding/hex"
 	"encoding/json"
 	"flag"
@@ -82,38 +84,40 @@ func bj(b *blockchain.Block) BlockJ {
 }
 
 type VEnvJ struct {
-	GenesisTS     uint32      `json:"genesis_ts"`
-	BlockTime     uint32      `json:"block_time"`
-	Now           uint32      `json:"now"`
-	MaxPayload    uint32      `json:"max_payload"`
-	GenLookupOK   bool        `json:"gen_lookup_ok"`
-	Generators    []string    `json:"generators"`
-	NodeMHP       uint32      `json:"node_mhp"`
-	Contradicting bool        `json:"contradicting"` // the module's own verdict (diagnostic only: the oracle recomputes it from Window)
-	Window        [][4]string `json:"window"`        // BFT window, newest first: height, generator address, maxHeightGenerated, maxHeightPrevoted
-	MhPrecommit   uint32      `json:"mh_precommit"`
-	MhCert        uint32      `json:"mh_cert"`
-	NextParams    *uint32     `json:"next_params"`   // NextHeightBFTParameters(maxHeightCertified+1), nil if none
-	AggLookupOK   bool        `json:"agg_lookup_ok"` // header and BFT parameters exist at the commit's height
-	AggBlsOK      bool        `json:"agg_bls_ok"`    // weighted BLS aggregate verifies (computed with pkg/crypto directly)
-	SigOK         bool        `json:"sig_ok"`
-	Batch         int         `json:"batch"` // liskbft batch size of this world (vote window = 3*batch); informational, used by C01
+	GenesisTS         uint32      `json:"genesis_ts"`
+	BlockTime         uint32      `json:"block_time"`
+	Now               uint32      `json:"now"`
+	MaxPayload        uint32      `json:"max_payload"`
+	GenLookupOK       bool        `json:"gen_lookup_ok"`
+	Generators        []string    `json:"generators"`
+	NodeMHP           uint32      `json:"node_mhp"`
+	Contradicting     bool        `json:"contradicting"` // the module's own verdict (diagnostic only: the oracle recomputes it from Window)
+	Window            [][4]string `json:"window"`        // BFT window, newest first: height, generator address, maxHeightGenerated, maxHeightPrevoted
+	MhPrecommit       uint32      `json:"mh_precommit"`
+	MhCert            uint32      `json:"mh_cert"`
+	NextParams        *uint32     `json:"next_params"`   // NextHeightBFTParameters(maxHeightCertified+1), nil if none
+	AggLookupOK       bool        `json:"agg_lookup_ok"` // header and BFT parameters exist at the commit's height
+	AggBlsOK          bool        `json:"agg_bls_ok"`    // weighted BLS aggregate verifies (computed with pkg/crypto directly)
+	SigOK             bool        `json:"sig_ok"`
+	SigningBytesAgree bool        `json:"signing_bytes_agree"` // production BlockHeader.SigningBytes() = the independent encoding
+	Batch             int         `json:"batch"`               // liskbft batch size of this world (vote window = 3*batch); informational, used by C01
 }
 type XEnvJ struct {
-	InitOK        bool      `json:"init_ok"`
-	VerifyAssets  bool      `json:"verify_assets_ok"`
-	BftOK         bool      `json:"bft_ok"`
-	BeforeOK      bool      `json:"before_ok"`
-	Tx            [][2]bool `json:"tx"`
-	AfterOK       bool      `json:"after_ok"`
-	ParamsChanged bool      `json:"params_changed"`
-	SetParamsOK   bool      `json:"set_params_ok"`
-	PostVHash     string    `json:"post_vhash"`
-	NEvents       int       `json:"nevents"`
-	EventRoot     string    `json:"eventroot"`
-	PostPrecommit uint32    `json:"post_precommit"`
-	CommitOK      bool      `json:"commit_ok"`
-	PostCS        string    `json:"post_cs"`
+	InitOK         bool      `json:"init_ok"`
+	VerifyAssets   bool      `json:"verify_assets_ok"`
+	BftOK          bool      `json:"bft_ok"`
+	BeforeOK       bool      `json:"before_ok"`
+	Tx             [][2]bool `json:"tx"`
+	AfterOK        bool      `json:"after_ok"`
+	ParamsChanged  bool      `json:"params_changed"`
+	SetParamsOK    bool      `json:"set_params_ok"`
+	PostVHash      string    `json:"post_vhash"`
+	NEvents        int       `json:"nevents"`
+	EventRoot      string    `json:"eventroot"`
+	EventRootAgree bool      `json:"eventroot_agree"` // blockchain.CalculateEventRoot = the independent sparse-Merkle computation
+	PostPrecommit  uint32    `json:"post_precommit"`
+	CommitOK       bool      `json:"commit_ok"`
+	PostCS         string    `json:"post_cs"`
 }
 type ImplJ struct {
 	Class    string   `json:"class"`
@@ -125,25 +129,29 @@ type ImplJ struct {
 	FinAfter uint32   `json:"fin_after"`
 	CSAfter  string   `json:"cs_after"`
 	AppAfter string   `json:"app_after"`
+	LbrAfter string   `json:"lbr_after"` // Executer.lastBlockReceived after the call: nil | previous | now (C07's oracle reads it)
 	Commits  int      `json:"abi_commits"`
 	Reverts  int      `json:"abi_reverts"`
 }
 type Case struct {
-	K        string  `json:"k"` // "pv": Validate+processValidated or process on a ValidBlock-shaped block; "tb": tie-break scenario
-	World    int     `json:"world"`
-	Alt      string  `json:"alt"`
-	Resigned bool    `json:"resigned"`
-	Path     string  `json:"path"`
-	Tip      HeaderJ `json:"tip"`
-	Fin      uint32  `json:"fin"`
-	CS       string  `json:"cs"`
-	App      string  `json:"app"`
-	Block    BlockJ  `json:"block"`
-	TxRoot   string  `json:"pe_txroot"`
-	AssetRt  string  `json:"pe_assetroot"`
-	VE       VEnvJ   `json:"ve"`
-	XE       XEnvJ   `json:"xe"`
-	Impl     ImplJ   `json:"impl"`
+	K        string `json:"k"` // "pv": Validate+processValidated or process on a ValidBlock-shaped block; "tb": tie-break scenario
+	World    int    `json:"world"`
+	Alt      string `json:"alt"`
+	Resigned bool   `json:"resigned"`
+	// the signed part of the header differs from the valid successor's and the block was NOT re-signed: whatever the field, the
+	// block must be rejected (at the signature rule at the latest)
+	UnsignedChange bool    `json:"unsigned_change"`
+	Path           string  `json:"path"`
+	Tip            HeaderJ `json:"tip"`
+	Fin            uint32  `json:"fin"`
+	CS             string  `json:"cs"`
+	App            string  `json:"app"`
+	Block          BlockJ  `json:"block"`
+	TxRoot         string  `json:"pe_txroot"`
+	AssetRt        string  `json:"pe_assetroot"`
+	VE             VEnvJ   `json:"ve"`
+	XE             XEnvJ   `json:"xe"`
+	Impl           ImplJ   `json:"impl"`
 	// tie-break only
 	Old   *BlockJ `json:"old,omitempty"`
 	OldVE *VEnvJ  `json:"old_ve,omitempty"`
@@ -164,14 +172,15 @@ type rotation struct {
 }
 
 type world struct {
-	noAgg    bool // no aggregate commits while growing (keeps maxHeightCertified low for the boundary cases)
-	noChange bool // no random validator-set changes while growing
-	id       int
-	n        *exh.Node
-	hist     []step
-	opt      exh.Options
-	r        *hx.Rng
-	out      *hx.Out
+	unsignedChange bool // set around a submit: see Case.UnsignedChange
+	noAgg          bool // no aggregate commits while growing (keeps maxHeightCertified low for the boundary cases)
+	noChange       bool // no random validator-set changes while growing
+	id             int
+	n              *exh.Node
+	hist           []step
+	opt            exh.Options
+	r              *hx.Rng
+	out            *hx.Out
 }
 
 func (w *world) rebuild() {
@@ -196,6 +205,121 @@ func (w *world) rebuild() {
 	}
 	n.DrainEvents()
 	w.n = n
+}
+
+// ---- independent encoding of the signed part of a header (written from the property's field list and the Lisk codec rules,
+// NOT from pkg/blockchain): tag || chainID || every header field except signature and id, in field-number order.
+func uvarint(x uint64) []byte {
+	out := []byte{}
+	for x >= 0x80 {
+		out = append(out, byte(x)|0x80)
+		x >>= 7
+	}
+	return append(out, byte(x))
+}
+func fUint(n int, v uint64) []byte { return append(uvarint(uint64(n)<<3|0), uvarint(v)...) }
+func fBytes(n int, b []byte) []byte {
+	return append(append(uvarint(uint64(n)<<3|2), uvarint(uint64(len(b)))...), b...)
+}
+func fBool(n int, v bool) []byte {
+	if v {
+		return fUint(n, 1)
+	}
+	return fUint(n, 0)
+}
+func indepSigningBytes(h *blockchain.BlockHeader) []byte {
+	out := []byte{}
+	out = append(out, fUint(1, uint64(h.Version))...)
+	out = append(out, fUint(2, uint64(h.Timestamp))...)
+	out = append(out, fUint(3, uint64(h.Height))...)
+	out = append(out, fBytes(4, h.PreviousBlockID)...)
+	out = append(out, fBytes(5, h.GeneratorAddress)...)
+	out = append(out, fBytes(6, h.TransactionRoot)...)
+	out = append(out, fBytes(7, h.AssetRoot)...)
+	out = append(out, fBytes(8, h.EventRoot)...)
+	out = append(out, fBytes(9, h.StateRoot)...)
+	out = append(out, fUint(10, uint64(h.MaxHeightPrevoted))...)
+	out = append(out, fUint(11, uint64(h.MaxHeightGenerated))...)
+	out = append(out, fBool(12, h.ImpliesMaxPrevotes)...)
+	out = append(out, fBytes(13, h.ValidatorsHash)...)
+	if h.AggregateCommit != nil {
+		ac := append(append(fUint(1, uint64(h.AggregateCommit.Height)), fBytes(2, h.AggregateCommit.AggregationBits)...), fBytes(3, h.AggregateCommit.CertificateSignature)...)
+		out = append(out, fBytes(14, ac)...)
+	}
+	return out
+}
+
+// indepSigOK: Ed25519 verification (crypto/ed25519) of the signature over SHA-256("LSK_BH_" || chainID || signed part).
+func indepSigOK(pub, sig, chainID []byte, h *blockchain.BlockHeader) bool {
+	if len(pub) != ed25519.PublicKeySize || len(sig) != ed25519.SignatureSize {
+		return false
+	}
+	msg := sha256.Sum256(append(append([]byte("LSK_BH_"), chainID...), indepSigningBytes(h)...))
+	return ed25519.Verify(ed25519.PublicKey(pub), msg[:], sig)
+}
+
+// ---- independent event root: the sparse Merkle root (LIP-0039 shape: empty subtree = SHA-256(""), a subtree with one leaf is
+// that leaf SHA-256(0x00 || key || value), otherwise SHA-256(0x01 || left || right)) over, for every event and each of its
+// topics, key = SHA-256(topic)[:8] || uint32(index<<2 | topic position), value = the encoded event.  Written from the LIPs, not
+// from pkg/blockchain/event.go or pkg/trie/smt.
+func indepEventRoot(events []*blockchain.Event) []byte {
+	type kv struct{ k, v []byte }
+	var leaves []kv
+	seen := map[string]bool{}
+	for i, e := range events {
+		val := []byte{}
+		val = append(val, fBytes(1, []byte(e.Module))...)
+		val = append(val, fBytes(2, []byte(e.Name))...)
+		val = append(val, fBytes(3, e.Data)...)
+		for _, t := range e.Topics {
+			val = append(val, fBytes(4, t)...)
+		}
+		val = append(val, fUint(5, uint64(e.Height))...)
+		val = append(val, fUint(6, uint64(i))...)
+		for j, t := range e.Topics {
+			th := sha256.Sum256(t)
+			idx := uint32(i)<<2 + uint32(j)
+			k := append(append([]byte{}, th[:8]...), byte(idx>>24), byte(idx>>16), byte(idx>>8), byte(idx))
+			if !seen[string(k)] {
+				seen[string(k)] = true
+				leaves = append(leaves, kv{k, val})
+			}
+		}
+	}
+	var rec func(ls []kv, depth int) []byte
+	rec = func(ls []kv, depth int) []byte {
+		switch len(ls) {
+		case 0:
+			h := sha256.Sum256(nil)
+			return h[:]
+		case 1:
+			h := sha256.Sum256(append(append([]byte{0}, ls[0].k...), ls[0].v...))
+			return h[:]
+		}
+		var l, r []kv
+		for _, x := range ls {
+			if x.k[depth/8]>>(7-uint(depth%8))&1 == 0 {
+				l = append(l, x)
+			} else {
+				r = append(r, x)
+			}
+		}
+		h := sha256.Sum256(append(append([]byte{1}, rec(l, depth+1)...), rec(r, depth+1)...))
+		return h[:]
+	}
+	return rec(leaves, 0)
+}
+
+func lbrClass(prev, cur *time.Time, start time.Time) string {
+	switch {
+	case cur == nil:
+		return "nil"
+	case prev != nil && cur.Equal(*prev):
+		return "previous"
+	case !cur.Before(start.Add(-time.Second)):
+		return "now"
+	}
+	return "other"
 }
 
 func cloneBlock(b *blockchain.Block) *blockchain.Block {
@@ -313,9 +437,10 @@ func envs(n *exh.Node, b *blockchain.Block, s *exh.Script) (VEnvJ, XEnvJ, string
 	if len(gens) > 0 {
 		slot := n.Slot(h.Timestamp)
 		if v := n.ValidatorByAddr(gens[slot%len(gens)]); v != nil {
-			ve.SigOK = blockchain.ValidateBlockSignature(v.Pub, h.Signature, n.Opt.ChainID, h.SigningBytes())
+			ve.SigOK = indepSigOK(v.Pub, h.Signature, n.Opt.ChainID, h) // NOT the production SigningBytes / ValidateBlockSignature
 		}
 	}
+	ve.SigningBytesAgree = bytes.Equal(h.SigningBytes(), indepSigningBytes(h))
 	ids := make([][]byte, len(b.Transactions))
 	for i, t := range b.Transactions {
 		ids[i] = t.ID
@@ -335,11 +460,11 @@ func envs(n *exh.Node, b *blockchain.Block, s *exh.Script) (VEnvJ, XEnvJ, string
 	xe.SetParamsOK = !xe.ParamsChanged || setParamsOK(n, s)
 	evs := s.AllEvents(len(b.Transactions))
 	xe.NEvents = len(evs)
-	er, err := blockchain.CalculateEventRoot(evs)
-	if err != nil {
-		panic(err)
-	}
+	er := indepEventRoot(evs) // NOT blockchain.CalculateEventRoot
 	xe.EventRoot = hex.EncodeToString(er)
+	if prod, err := blockchain.CalculateEventRoot(evs); err == nil {
+		xe.EventRootAgree = bytes.Equal(prod, er)
+	}
 	xe.CommitOK = !s.FailCommit && (s.StateRoot == nil || bytes.Equal(s.StateRoot, h.StateRoot))
 	// BFT post-state on a scratch staged store (never committed): the vote model is an input of C03 (C01/C02 own it)
 	store := n.Exec.VerifC03ConsensusStore()
@@ -394,11 +519,12 @@ func (w *world) submit(alt string, b *blockchain.Block, s *exh.Script, resigned 
 		n.ABI.S = s
 		tip := n.Tip().Header
 		fin, _ := n.Finalized()
-		c := Case{K: "pv", World: w.id, Alt: alt, Resigned: resigned, Tip: hj(tip), Fin: fin, CS: csCode(n), App: hex.EncodeToString(n.ABI.AppRoot), Block: bj(b)}
+		c := Case{K: "pv", World: w.id, Alt: alt, Resigned: resigned, UnsignedChange: w.unsignedChange, Tip: hj(tip), Fin: fin, CS: csCode(n), App: hex.EncodeToString(n.ABI.AppRoot), Block: bj(b)}
 		commits0, reverts0 := n.ABI.Commits, n.ABI.Reverts
 		c.VE, c.XE, c.TxRoot, c.AssetRt = envs(n, b, s)
 		before := n.Dump()
 		n.DrainEvents()
+		lbr0, t0 := n.Exec.VerifC03LastBlockReceived(), time.Now()
 		shapeOK := b.Header.Height == tip.Height+1 && bytes.Equal(b.Header.PreviousBlockID, tip.ID) && !bytes.Equal(b.Header.ID, tip.ID)
 		var r exh.Result
 		if shapeOK && !forcePV && w.r.Intn(2) == 0 {
@@ -416,7 +542,8 @@ func (w *world) submit(alt string, b *blockchain.Block, s *exh.Script, resigned 
 		after := n.Dump()
 		c.Impl = ImplJ{Class: exh.ErrClass(r), DBSame: exh.Digest(before) == exh.Digest(after), Events: n.DrainEvents(),
 			TipAfter: hex.EncodeToString(n.Tip().Header.ID), CSAfter: csCode(n), AppAfter: hex.EncodeToString(n.ABI.AppRoot),
-			Commits: n.ABI.Commits - commits0, Reverts: n.ABI.Reverts - reverts0}
+			Commits: n.ABI.Commits - commits0, Reverts: n.ABI.Reverts - reverts0,
+			LbrAfter: lbrClass(lbr0, n.Exec.VerifC03LastBlockReceived(), t0)}
 		if r.Err != nil {
 			c.Impl.Err = r.Err.Error()
 		}
@@ -533,7 +660,9 @@ func (w *world) alterations(valid *blockchain.Block, script *exh.Script) {
 			} else {
 				b.Header.Init()
 			}
+			w.unsignedChange = !resign && !bytes.Equal(indepSigningBytes(b.Header), indepSigningBytes(valid.Header))
 			w.submit(m.name, b, cloneScript(script), resign, false)
+			w.unsignedChange = false
 		}
 	}
 	// genuine aggregate commits on both sides of every bound of verifyAggregateCommit
@@ -1074,18 +1203,29 @@ func (w *world) changeValidators() bool {
 // tieBreak drives Executer.process into the tie-break branch with an invalid competing block (bad signature): the tip is
 // deleted, the new block rejected, the old tip re-applied.
 // mode: 0 valid competitor, 1 invalid signature, 2 execution failure (ABI AfterTransactionsExecute), 3 validatorsHash mismatch
+// tieBreak retries the scenario when the wall clock crossed a slot boundary (the case cannot be judged then)
 func (w *world) tieBreak(mode int) {
+	for attempt := 0; attempt < 4; attempt++ {
+		if w.tieBreakOnce(mode) {
+			return
+		}
+	}
+}
+
+func (w *world) tieBreakOnce(mode int) bool {
 	n := w.n
 	nowSlot := n.Slot(uint32(time.Now().Unix()))
 	tipSlot := n.Slot(n.Tip().Header.Timestamp)
 	if nowSlot-tipSlot < 3 {
-		return
+		return true
 	}
-	// old tip T in slot now-1
-	s1 := w.randomScript(n.Tip().Header.Height+1, 0)
+	histLen := len(w.hist)
+	// old tip T in slot now-1: with or without payload / assets / a change of the validator set
+	bo1, s1 := w.randomBuild(mode%2 == 1 && !w.noChange)
+	bo1.SkipSlots = nowSlot - 2 - tipSlot
 	n.ABI.S = s1
 	prevBlock := n.Tip()
-	T := n.NextValid(exh.Build{SkipSlots: nowSlot - 2 - tipSlot})
+	T := n.NextValid(bo1)
 	if r := n.ProcessValidated(T, false); !r.OK() {
 		panic("tiebreak: T rejected")
 	}
@@ -1097,15 +1237,16 @@ func (w *world) tieBreak(mode int) {
 	tipBlock := n.Tip()
 	n.DeleteBlock(tipBlock, false)
 	delCS := csCode(n)
-	s2 := w.randomScript(T.Header.Height, 0)
+	bo2, s2 := w.randomBuild(false)
+	bo2.SkipSlots = nowSlot - 1 - n.Slot(prevBlock.Header.Timestamp)
 	n.ABI.S = s2
-	T2 := n.NextValid(exh.Build{SkipSlots: nowSlot - 1 - n.Slot(prevBlock.Header.Timestamp)})
+	T2 := n.NextValid(bo2)
 	if bytes.Equal(T2.Header.GeneratorAddress, T.Header.GeneratorAddress) {
-		// same generator would be double forging; restore and give up
+		// same generator would be double forging (a single-generator list): not a tie-break; restore and give up
 		n.ABI.S = s1
 		n.ProcessValidated(T, false)
 		w.rebuild()
-		return
+		return true
 	}
 	alt := "tie-break: valid competing block"
 	switch mode {
@@ -1146,23 +1287,30 @@ func (w *world) tieBreak(mode int) {
 	n.DrainEvents()
 	hook := &switchScript{n: n, first: s2, second: s1, firstHeight: T2.Header}
 	hook.arm()
+	lbr0, t0 := n.Exec.VerifC03LastBlockReceived(), time.Now()
 	r := n.Process(T2)
 	hook.disarm()
 	after := n.Dump()
 	c.Impl = ImplJ{Class: exh.ErrClass(r), DBSame: exh.Digest(before) == exh.Digest(after), Events: n.DrainEvents(),
 		TipAfter: hex.EncodeToString(n.Tip().Header.ID), CSAfter: csCode(n), AppAfter: hex.EncodeToString(n.ABI.AppRoot),
-		Commits: n.ABI.Commits - commits0, Reverts: n.ABI.Reverts - reverts0}
+		Commits: n.ABI.Commits - commits0, Reverts: n.ABI.Reverts - reverts0,
+		LbrAfter: lbrClass(lbr0, n.Exec.VerifC03LastBlockReceived(), t0)}
 	c.Impl.FinAfter, _ = n.Finalized()
 	if !c.Impl.DBSame {
 		c.Impl.DiffKeys = exh.DiffKeys(before, after)
 	}
-	if n.Slot(uint32(time.Now().Unix())) == nowSlot {
-		w.out.Put(c)
+	if n.Slot(uint32(time.Now().Unix())) != nowSlot {
+		// the wall clock left the slot during the scenario: undo it and let the caller retry
+		w.hist = w.hist[:histLen]
+		w.rebuild()
+		return false
 	}
+	w.out.Put(c)
 	if bytes.Equal(n.Tip().Header.ID, T2.Header.ID) {
 		w.hist[len(w.hist)-1] = step{block: T2, script: s2}
 	}
 	w.rebuild()
+	return true
 }
 
 // switchScript makes the ABI double answer with `first` until the block under test has been handled and with `second`
